@@ -104,7 +104,7 @@ func H_c05_completed() {
 // commands whose Demon handler transmits exactly one package per task (Command.c; see
 // DESIGN.md appendix A): after any callback that produced an effect, the id is forgotten.
 var verifSingleShot = []uint32{COMMAND_SLEEP, COMMAND_EXIT, COMMAND_KILL_DATE, COMMAND_PROC_PPIDSPOOF, COMMAND_MEM_FILE,
-	COMMAND_INJECT_SHELLCODE, COMMAND_INJECT_DLL, COMMAND_SPAWNDLL, COMMAND_SCREENSHOT, COMMAND_CONFIG, COMMAND_ASSEMBLY_LIST_VERSIONS}
+	COMMAND_INJECT_SHELLCODE, COMMAND_INJECT_DLL, COMMAND_SCREENSHOT, COMMAND_CONFIG, COMMAND_ASSEMBLY_LIST_VERSIONS}
 
 // H_c05_final: for single-package commands, a callback that had any effect completes the task.
 func H_c05_final() {
